@@ -51,6 +51,7 @@ def plan(tier, seed):
     specs = [{"part": "roundtrip", "shard": i, "of": n} for i in range(n)]
     specs += [{"part": "order", "shard": i, "of": n} for i in range(n)]
     specs.append({"part": "tags"})
+    specs.append({"part": "wide"})
     if tier == "thorough":
         # set iteration order (which depends on string hashing) decides the order in which links are written: second seed
         specs += [dict(x, hashseed=1) for x in list(specs)]
@@ -328,9 +329,43 @@ def order_part(res, spec, tier, scratch):
                 res.sample({"order_gfa_input": c.g.lines()[:5] + ["..."], "options": ["--by-chrom", "--with-sequence", "--chromosome_order chr2,chr1"]})
 
 
+def wide_bubble(res, scratch, n_alleles=1005):
+    """one bubble with more than 1000 alleles between two scaffold nodes (NO runs to four digits)"""
+    g = rgfa.Graph()
+    g.add_seg("t0", "TT", [("LN", "i", "2"), ("SN", "Z", "chr1"), ("SO", "i", "0"), ("SR", "i", "0")])
+    g.add_seg("a", "ACGT", [("LN", "i", "4"), ("SN", "Z", "chr1"), ("SO", "i", "2"), ("SR", "i", "0")])
+    g.add_seg("r", "C", [("LN", "i", "1"), ("SN", "Z", "chr1"), ("SO", "i", "6"), ("SR", "i", "0")])
+    g.add_seg("b", "GGTT", [("LN", "i", "4"), ("SN", "Z", "chr1"), ("SO", "i", "7"), ("SR", "i", "0")])
+    g.add_seg("t1", "AA", [("LN", "i", "2"), ("SN", "Z", "chr1"), ("SO", "i", "11"), ("SR", "i", "0")])
+    g.add_link("t0", "+", "a", "+", "0M")  # the scaffold nodes a and b are articulation points only with something beyond them
+    g.add_link("b", "+", "t1", "+", "0M")
+    g.add_link("a", "+", "r", "+", "0M")
+    g.add_link("r", "+", "b", "+", "0M")
+    inner = ["r"]
+    for i in range(n_alleles - 1):
+        nid = f"v{i:04d}"
+        g.add_seg(nid, "ACGT"[i % 4], [("LN", "i", "1"), ("SN", "Z", f"h{i}#1#c"), ("SO", "i", str(7 * i)), ("SR", "i", str(1 + i % 9))])
+        g.add_link("a", "+", nid, "+", "0M")
+        g.add_link(nid, "+", "b", "+", "0M")
+        inner.append(nid)
+
+    class C:
+        pass
+
+    c = C()
+    # (the brute-force chain model is exponential in the bubble width; the chain of this graph is known by construction and
+    # the same shape with 3, 6 and 9 alleles was compared with the model)
+    c.g, c.chrom, c.order = g, "chr1", [("b", frozenset({"t0"})), ("s", "a"), ("b", frozenset(inner)), ("s", "b"), ("b", frozenset({"t1"}))]
+    for by_chrom in (True, False):
+        judge_order_outputs(res, scratch, g, [c], "chr1", by_chrom, True, f"[bubble of {n_alleles} alleles] by_chrom={by_chrom}")
+        res.count("wide_bubble_runs")
+
+
 def run_shard(spec, tier, scratch):
     res = fw.ShardResult().begin(spec, tier)
-    if spec["part"] == "roundtrip":
+    if spec["part"] == "wide":
+        wide_bubble(res, scratch)
+    elif spec["part"] == "roundtrip":
         roundtrip_part(res, spec, tier, scratch)
     elif spec["part"] == "tags":
         tags_part(res, scratch)
@@ -345,6 +380,9 @@ def replay(case, scratch):
         roundtrip(res, scratch, case["gfa"], "replay", gz_members=case.get("gz_members", 0))
         return res.failures
     g = rgfa.Graph.parse(case["gfa"])
+    if len(g.segs) > 200:
+        wide_bubble(res, scratch)  # (the brute-force chain model below is exponential in the bubble width)
+        return [f for f in res.failures if f["case"].get("by_chrom") == case.get("by_chrom")] or res.failures
     chains = []
     for comp in rgfa.components(g.adjacency()):
         sub = rgfa.Graph()
